@@ -278,14 +278,23 @@ def triage(ctx: Ctx, w: Write, kind: str, why: str, schema: Schema):
     if mod == TYPES and qn == "call_signature.decorate" and kind == "param":
         return True, "runs once per class at import (definition time)"
     # 3. reducer accumulator
-    if mod == BASE and qn == "Aggregate._convert.update_args" and kind == "param":
+    if mod == BASE and qn.startswith("Aggregate._convert.") and kind == "param":
         from .rules_schema import reducer
         from .match import Expander
 
-        outer, inner, call = reducer(p)
+        try:
+            outer, inner, call = reducer(p)
+        except AnalysisError:
+            return None, "reducer not recognised"
+        if qn != f"Aggregate._convert.{inner.name}":
+            return None, "not the reducer"
         init = Expander(outer).x(call.args[2]) if len(call.args) > 2 else None
         fresh = isinstance(init, ast.Tuple) and all(isinstance(e, (ast.List, ast.Dict, ast.Constant, ast.UnaryOp)) for e in init.elts)
-        sites = [s for s in _call_sites(p, "update_args")]
+        if not fresh and isinstance(init, ast.Call) and not any(isinstance(a_, ast.Starred) for a_ in init.args):
+            # a record type built from fresh literals: _State([], {}, -1, False) / _State(args=[], kwargs={}, ...)
+            parts_ = list(init.args) + [k.value for k in init.keywords]
+            fresh = bool(parts_) and all(isinstance(e, (ast.List, ast.Dict, ast.Constant, ast.UnaryOp)) for e in parts_)
+        sites = [s for s in _call_sites(p, inner.name)]
         return fresh and not sites, "accumulator of functools.reduce, whose initial value is a fresh literal; no other call site" if fresh and not sites else f"accumulator not provably fresh (initial={ast.unparse(init) if init is not None else None}, other call sites={len(sites)})"
     # 4. _listAppend(root, member): root allocated by the caller
     if mod == BASE and qn.endswith("._listAppend") and kind == "param":
